@@ -715,32 +715,41 @@ def r10(R):
                 loaded = True
         return (joined, loaded)
 
-    def at(node, st):
-        joined, loaded = st
-        for op in F.ops(node):
-            if op.kind == 'setitem' and path_is(op.path,
-                                                ('self', '_readCurrent')):
-                seen[0] += 1
-                if not joined:
-                    return Violation(
-                        'readCurrent records the dependency on a path on '
-                        'which the connection has not joined the '
-                        'transaction: a transaction that writes only '
-                        'through another connection (multi-database), or '
-                        'nothing through this one, commits without the '
-                        'dependency ever being checked')
-                if not loaded:
-                    return Violation(
-                        'readCurrent records the serial of an object that '
-                        'may be a ghost: a never-loaded ghost carries the '
-                        'serial of a new object, nothing is recorded, and '
-                        'the commit succeeds although the object was '
-                        'changed (or un-created) meanwhile')
-        return st
+    def make_at(clause):
+        def at(node, st):
+            joined, loaded = st
+            for op in F.ops(node):
+                if op.kind == 'setitem' and path_is(
+                        op.path, ('self', '_readCurrent')):
+                    seen[0] += 1
+                    if clause == 'join' and not joined:
+                        return Violation(
+                            'readCurrent records the dependency on a path '
+                            'on which the connection has not joined the '
+                            'transaction: a transaction that writes only '
+                            'through another connection (multi-database), '
+                            'or nothing through this one, commits without '
+                            'the dependency ever being checked')
+                    if clause == 'ghost' and not loaded:
+                        return Violation(
+                            'readCurrent records the serial of an object '
+                            'that may be a ghost: a never-loaded ghost '
+                            'carries the serial of a new object, nothing is '
+                            'recorded, and the commit succeeds although the '
+                            'object was changed (or un-created) meanwhile')
+            return st
+        return at
 
-    vs, stats = explore(g, (False, False), at=at, edge=edge)
-    R.count(stats)
+    vs = []
+    for clause, key in (('join', 'dependency recorded without joining the '
+                         'transaction'),
+                        ('ghost', 'serial of a possible ghost recorded')):
+        v1, stats = explore(g, (False, False), at=make_at(clause), edge=edge)
+        R.count(stats)
+        for v in v1[:1]:
+            v.key = key
+        vs.extend(v1[:1])
     R.instance('Connection.readCurrent')
     R.require(seen[0] or vs, 'readCurrent no longer records the dependency')
     for v in vs:
-        R.violation(v.node, v.message, g, v.path)
+        R.violation(v.node, v.message, g, v.path, key=v.key)
